@@ -447,6 +447,12 @@ def check_blocking(c, repo, R):
                 okq = any(kw.arg in ('timeout', 'block') for kw in k.keywords) or len(k.args) >= 1
                 c.check(okq, f, k, 'queue read does not block without bound', witness='via ' + via, kind='flow', tag='queue-get')
             elif last == 'settimeout':
+                # only a timeout that is in force while the body of the with statement (the recv) runs is a wait bound;
+                # putting the socket's own value back afterwards is C06's concern
+                ys_ = [y for y in f.cfg.nodes if y.ast is not None and any(isinstance(x, (ast.Yield, ast.YieldFrom)) for r_ in node_roots(y) for x in ast.walk(r_))]
+                kn_ = f.cfg.node_for(k)
+                if ys_ and kn_ is not None and not any(f.cfg.path(kn_, y, skip_labels=('exc',)) is not None for y in ys_):
+                    continue
                 n_sites += 1
                 a = k.args[0] if k.args else None
                 ok, why = bounded_timeout_expr(f, a)
@@ -607,11 +613,17 @@ def check_socket_timeout(c, repo, restore=True):
     g = f.cfg
     saves = [n for n in g.nodes if n.kind == 'stmt' and isinstance(n.ast, ast.Assign) and isinstance(n.ast.value, ast.Call)
              and callee_last(n.ast.value) == 'gettimeout']
-    c.need(len(saves) == 1, '_timeout: saved = gettimeout() not found')
-    sv = saves[0].ast.targets[0].id
-    restores = [k for k in calls_in(f.node) if callee_last(k) == 'settimeout' and k.args and is_name(k.args[0], sv)]
     ys = [n for n in ast.walk(f.node) if isinstance(n, (ast.Yield, ast.YieldFrom))]
     c.need(len(ys) == 1, '_timeout: expected one yield')
+    if restore:
+        c.check(len(saves) == 1, f, saves[0].ast if saves else f.node,
+                'the socket\'s own timeout is read in the same invocation, just before it is changed (a value remembered from '
+                'an earlier time would undo a change the owner of the socket made in between)',
+                witness='%d gettimeout() reads in _timeout' % len(saves), kind='ast', tag='save-here')
+    if len(saves) != 1:
+        saves = []
+    sv = saves[0].ast.targets[0].id if saves else None
+    restores = [k for k in calls_in(f.node) if callee_last(k) == 'settimeout' and k.args and sv and is_name(k.args[0], sv)]
     in_finally = False
     for k in restores:
         for p in parent_chain(k):
@@ -625,8 +637,9 @@ def check_socket_timeout(c, repo, restore=True):
                 witness='restore calls: %s; inside a finally covering the yield: %s' % ([norm(k) for k in restores], in_finally),
                 kind='ast', tag='restore-finally')
     sets = [k for k in calls_in(f.node) if callee_last(k) == 'settimeout' and k not in restores]
-    okorder = bool(sets) and all(g.dominated_by(g.node_for(k), {saves[0]})[0] for k in sets if g.node_for(k) is not None)
-    c.check(okorder, f, saves[0].ast, 'the old timeout is read before it is changed', kind='path', tag='save-first')
+    if restore and saves:
+        okorder = bool(sets) and all(g.dominated_by(g.node_for(k), {saves[0]})[0] for k in sets if g.node_for(k) is not None)
+        c.check(okorder, f, saves[0].ast, 'the old timeout is read before it is changed', kind='path', tag='save-first')
     f2 = repo.func('socket_pexpect:SocketSpawn.read_nonblocking')
     recvs = [k for k in calls_in(f2.node) if callee_last(k) == 'recv']
     c.need(len(recvs) == 1, 'recv not found')
